@@ -82,7 +82,7 @@ Print Assumptions C04_code_clear_dtc.
 
 (* ... and read_data_by_identifier([0xF190, 0x0102]) on a positive response carrying ANY 1..8 data bytes (the decoder's loop over the DIDs
    of the response, the zero-padding rule, the codec lookup) *)
-From UDS Require Import Gen.Fn_Did Proofs.Tie_did_doc.
+From UDS Require Import Gen.Fn_DidInt Proofs.Tie_did_doc.
 Theorem C04_code_read_data_by_identifier : forall d, d <> [] -> (List.length d < 9)%nat -> documented (fn_rdbi_interpret d).
 Proof. exact doc_rdbi. Qed.
 Print Assumptions C04_code_read_data_by_identifier.
